@@ -13,7 +13,8 @@ namespace BreezyVerif.C28
 `lock_write` and never cleared, it is not part of the lock state -/
 def LF.lcore (s : LF) : LF := { s.core with tokenFromLock := none }
 def Branch.lcore (s : Branch) : Branch := { cf := s.cf.lcore, repo := s.repo.core }
-def Tree.lcore (s : Tree) : Tree := { cf := s.cf.lcore, branch := s.branch.lcore }
+def Tree.lcore (s : Tree) : Tree :=
+  { cf := s.cf.lcore, branch := s.branch.lcore, ds := { s.ds with log := [] } }
 
 theorem LF.lcore_of_core {a b : LF} (h : a.core = b.core) : a.lcore = b.lcore := by
   simp only [LF.lcore, h]
@@ -43,6 +44,12 @@ theorem Repo.core_depth {a b : Repo} (h : a.core = b.core) : a.depth = b.depth :
     have := congrArg Repo.cf h
     simpa [Repo.core] using this
   simp only [Repo.depth, h1, LF.core_count h2]
+
+theorem Tree.lcore_parts {a b : Tree} (h : a.lcore = b.lcore) :
+    a.cf.count = b.cf.count ∧ a.branch.lcore = b.branch.lcore ∧ a.ds.held = b.ds.held :=
+  ⟨LF.lcore_count (by have := congrArg Tree.cf h; simpa [Tree.lcore] using this),
+   by have := congrArg Tree.branch h; simpa [Tree.lcore] using this,
+   by have := congrArg (fun t => t.ds.held) h; simpa [Tree.lcore] using this⟩
 
 theorem Branch.lcore_counts {a b : Branch} (h : a.lcore = b.lcore) :
     a.cf.count = b.cf.count ∧ a.repo.depth = b.repo.depth :=
@@ -298,64 +305,182 @@ theorem Branch.unlock_ok {s : Branch} (h : s.Inv) (hcons : s.Consistent) (hc : 0
       · rw [er]; exact ⟨_, rfl, hcc⟩
       · rw [er]; exact ⟨_, rfl, hcc⟩
 
+/-! ### control files: one step -/
+
+theorem LF.step_refused (s : LF) (h : s.Inv) (o : Op) (e : Err)
+    (hr : (s.step o).2 = .error e) : (s.step o).1 = s := by
+  obtain ⟨h1, ht, h2, h3⟩ := h
+  cases o <;> simp only [LF.step, LF.lockRead, LF.lockWrite, LF.unlock] at hr ⊢ <;>
+    (repeat' split at hr) <;> simp_all
+
+theorem LF.step_ok_count (s : LF) (h : s.Inv) (o : Op) (t : Option Nat)
+    (hr : (s.step o).2 = .ok t) :
+    if o = .unlock then (s.step o).1.count + 1 = s.count else (s.step o).1.count = s.count + 1 := by
+  cases o with
+  | lockRead =>
+    rcases LF.lockRead_spec h with ⟨_, _, e⟩ | ⟨s', e, hc, _, _⟩
+    · simp only [LF.step, e] at hr; cases hr
+    · simp only [LF.step, e, reduceCtorEq, if_false]; exact hc
+  | lockWrite tok =>
+    obtain ⟨h1, ht, h2, h3⟩ := h
+    simp only [LF.step, LF.lockWrite, reduceCtorEq, if_false] at hr ⊢
+    (repeat' split at hr) <;> simp_all
+  | unlock =>
+    rcases LF.unlock_spec h with ⟨_, e⟩ | ⟨_, s', e, hc, _⟩
+    · simp only [LF.step, e] at hr; cases hr
+    · simp only [LF.step, e, if_true]; exact hc
+
+/-- a granted lock call on control files followed by `unlock` restores their lock state -/
+theorem LF.lock_unlock_lcore {s : LF} (h : s.Inv) (o : Op) (ho : o ≠ .unlock) {s' : LF} {t : Option Nat}
+    (e : s.step o = (s', .ok t)) : ∃ s'', s'.unlock = (s'', .ok none) ∧ s''.lcore = s.lcore := by
+  cases o with
+  | unlock => exact absurd rfl ho
+  | lockRead =>
+    obtain ⟨s'', eu, hc⟩ := LF.lockRead_unlock_core h (s' := s') (t := t) e
+    exact ⟨s'', eu, LF.lcore_of_core hc⟩
+  | lockWrite tok => exact LF.lockWrite_unlock_lcore h e
+
 /-! ### the tree layer -/
 
 structure Tree.Inv (s : Tree) : Prop where
   cf : s.cf.Inv
   branch : s.branch.Inv
+  /-- the dirstate file is locked exactly while the tree is -/
+  ds_held : s.ds.held.isSome = true ↔ 0 < s.cf.count
+  ds_bal : Balanced s.ds.log s.ds.held.isSome
 
 /-- every tree lock holds a branch lock, and the branch holds its repository (violated
 only when a caller unlocks the branch or the repository behind the tree's back) -/
 structure Tree.Consistent (s : Tree) : Prop where
-  tree : 0 < s.cf.count → 0 < s.branch.cf.count
+  tree : s.cf.count ≤ s.branch.cf.count
   branch : s.branch.Consistent
 
-theorem Tree.inv_init (ext rbT rbB rbR : Bool) : (Tree.init ext rbT rbB rbR).Inv :=
-  ⟨LF.inv_init ext rbT, Branch.inv_init ext rbB rbR⟩
+theorem Tree.inv_init (ext rbT rbB rbR : Bool) (pin : Bool := false) :
+    (Tree.init ext rbT rbB rbR pin).Inv :=
+  ⟨LF.inv_init ext rbT, Branch.inv_init ext rbB rbR, by simp [Tree.init, LF.init], Balanced.nil⟩
 
-theorem Tree.lockSelf_inv {s : Tree} (h : s.Inv) (r : LF × Res) (hr : r.1.Inv) :
-    (s.lockSelf r).1.Inv := by
-  obtain ⟨cf, res⟩ := r
+theorem DS.lock_ok {d d' : DS} {m : Mode} (h : d.lock m = .ok d') :
+    d'.held = some m ∧ d'.pinned = d.pinned ∧ ∃ e, e ≠ Ev.rel ∧ d'.log = d.log ++ [e] := by
+  unfold DS.lock at h
+  split at h
+  · cases h
+  · injection h with h; subst h
+    refine ⟨rfl, rfl, _, ?_, rfl⟩
+    cases m <;> decide
+
+theorem DS.lock_err {d : DS} {m : Mode} {e : Err} (h : d.lock m = .error e) :
+    e = .contention ∧ m = .w ∧ d.pinned = true := by
+  unfold DS.lock at h
+  split at h
+  · next hc =>
+    injection h with h
+    simp only [Bool.and_eq_true, decide_eq_true_eq] at hc
+    exact ⟨h.symm, hc.1, hc.2⟩
+  · cases h
+
+theorem Tree.rollbackBranch_inv {s : Tree} (hb : s.branch.Inv) (e : Err) :
+    (Tree.rollbackBranch s e).1.branch.Inv ∧ (Tree.rollbackBranch s e).1.cf = s.cf ∧
+    (Tree.rollbackBranch s e).1.ds = s.ds := by
+  have hu := Branch.inv_stepG hb (.branch .unlock)
+  simp only [Tree.rollbackBranch]
+  rcases hx : s.branch.stepG (.branch .unlock) with ⟨b, r'⟩
+  rw [hx] at hu
+  cases r' <;> exact ⟨hu, rfl, rfl⟩
+
+/-- `self` is one of the lock calls on the tree's own control files -/
+theorem Tree.lockSelf_inv {s : Tree} (h : s.Inv) (m : Mode) (o : Op) (ho : o ≠ .unlock) :
+    (s.lockSelf m (s.cf.step o)).1.Inv := by
+  rcases hr : s.cf.step o with ⟨cf, res⟩
+  have hcf : cf.Inv := by have := LF.inv_step h.cf o; rw [hr] at this; exact this
   cases res with
-  | ok t => exact ⟨hr, h.branch⟩
   | error e =>
-    have hu := Branch.inv_stepG h.branch (.branch .unlock)
+    have hsame : cf = s.cf := by
+      have := LF.step_refused s.cf h.cf o e (by rw [hr])
+      rw [hr] at this; exact this
+    subst hsame
+    obtain ⟨h1, h2, h3⟩ := Tree.rollbackBranch_inv (s := { s with cf := s.cf }) h.branch e
     simp only [Tree.lockSelf]
-    rcases hx : s.branch.stepG (.branch .unlock) with ⟨b, r'⟩
-    rw [hx] at hu
-    cases r' <;> exact ⟨hr, hu⟩
+    exact ⟨by rw [h2]; exact h.cf, h1, by rw [h2, h3]; exact h.ds_held, by rw [h3]; exact h.ds_bal⟩
+  | ok t =>
+    have hcnt : cf.count = s.cf.count + 1 := by
+      have := LF.step_ok_count s.cf h.cf o t (by rw [hr])
+      rw [hr] at this
+      simpa [ho] using this
+    simp only [Tree.lockSelf]
+    by_cases hh : s.ds.held.isSome = true
+    · simp only [hh, if_true]
+      exact ⟨hcf, h.branch, ⟨fun _ => by show 0 < cf.count; omega, fun _ => hh⟩, h.ds_bal⟩
+    · simp only [hh, Bool.false_eq_true, if_false]
+      have hc0 : s.cf.count = 0 := by
+        have : ¬ 0 < s.cf.count := fun hp => hh (h.ds_held.mpr hp)
+        omega
+      have hhn : s.ds.held.isSome = false := by simpa using hh
+      cases hd : s.ds.lock m with
+      | ok d =>
+        obtain ⟨d1, _, e, he, hl⟩ := DS.lock_ok hd
+        simp only
+        refine ⟨hcf, h.branch, ⟨fun _ => by show 0 < cf.count; omega, fun _ => by simp [d1]⟩, ?_⟩
+        simp only [d1, hl, Option.isSome_some]
+        have := h.ds_bal
+        rw [hhn] at this
+        exact this.acquire e he
+      | error e =>
+        simp only
+        obtain ⟨cf2, eu, _⟩ := LF.lock_unlock_lcore h.cf o ho hr
+        have hcf2 : cf2.Inv := by have := LF.unlock_inv hcf; rw [eu] at this; exact this
+        have hc2 : cf2.count = 0 := by
+          rcases LF.unlock_spec hcf with ⟨h0, _⟩ | ⟨_, s', e', hc', _⟩
+          · omega
+          · rw [eu] at e'; injection e' with e1 _; subst e1; omega
+        rw [eu]
+        simp only
+        obtain ⟨h1, h2, h3⟩ := Tree.rollbackBranch_inv (s := { s with cf := cf2 }) h.branch e
+        exact ⟨by rw [h2]; exact hcf2, h1,
+          by rw [h2, h3]; simp only; constructor <;> intro hx <;> simp_all,
+          by rw [h3]; exact h.ds_bal⟩
 
-theorem Tree.lockVia_inv {s : Tree} (h : s.Inv) (bo : Op) (self : LF → LF × Res)
-    (hself : ∀ cf : LF, cf.Inv → (self cf).1.Inv) : (s.lockVia bo self).1.Inv := by
+theorem Tree.lockVia_inv {s : Tree} (h : s.Inv) (bo : Op) (m : Mode) (o : Op) (ho : o ≠ .unlock) :
+    (s.lockVia bo m (fun cf => cf.step o)).1.Inv := by
   have hb := Branch.inv_stepG h.branch (.branch bo)
   simp only [Tree.lockVia]
   rcases hx : s.branch.stepG (.branch bo) with ⟨b, r⟩
   rw [hx] at hb
   cases r with
-  | error e => exact ⟨h.cf, hb⟩
-  | ok t => exact Tree.lockSelf_inv (s := { s with branch := b }) ⟨h.cf, hb⟩ _ (hself _ h.cf)
+  | error e => exact ⟨h.cf, hb, h.ds_held, h.ds_bal⟩
+  | ok t =>
+    exact Tree.lockSelf_inv (s := { s with branch := b }) ⟨h.cf, hb, h.ds_held, h.ds_bal⟩ m o ho
 
 theorem Tree.unlock_inv {s : Tree} (h : s.Inv) : s.unlock.1.Inv := by
-  have hc := LF.unlock_inv h.cf
   have hu := Branch.inv_stepG h.branch (.branch .unlock)
   simp only [Tree.unlock]
-  rcases hx : s.cf.unlock with ⟨cf, r⟩
-  rw [hx] at hc
-  simp only
   rcases hy : s.branch.stepG (.branch .unlock) with ⟨b, r'⟩
   rw [hy] at hu
-  cases r' <;> exact ⟨hc, hu⟩
+  rcases LF.unlock_spec h.cf with ⟨h0, eu⟩ | ⟨hp, cf', eu, hcc, hi⟩
+  · have hne : (s.cf.count = 1 && s.ds.held.isSome) = false := by simp [h0]
+    simp only [hne, Bool.false_eq_true, if_false, eu, hy]
+    cases r' <;> exact ⟨h.cf, hu, h.ds_held, h.ds_bal⟩
+  · have hheld : s.ds.held.isSome = true := h.ds_held.mpr hp
+    by_cases h1 : s.cf.count = 1
+    · simp only [h1, hheld, Bool.and_self, decide_true, if_true, eu, hy]
+      have hb := h.ds_bal
+      rw [hheld] at hb
+      cases r' <;>
+        exact ⟨hi, hu, by simp only [DS.unlock]; constructor <;> intro hx <;> simp_all <;> omega,
+          by simp only [DS.unlock, Option.isSome_none]; exact hb.release⟩
+    · have hne : (s.cf.count = 1 && s.ds.held.isSome) = false := by simp [h1]
+      simp only [hne, Bool.false_eq_true, if_false, eu, hy]
+      cases r' <;> exact ⟨hi, hu, ⟨fun _ => by show 0 < cf'.count; omega, fun _ => hheld⟩, h.ds_bal⟩
 
 theorem Tree.inv_step {s : Tree} (h : s.Inv) (o : TOp) : (s.step o).1.Inv := by
   cases o with
   | tree o =>
     cases o with
-    | lockRead => exact Tree.lockVia_inv h _ _ (fun _ hc => LF.lockRead_inv hc)
-    | lockTreeWrite => exact Tree.lockVia_inv h _ _ (fun _ hc => LF.lockWrite_inv hc none)
-    | lockWrite => exact Tree.lockVia_inv h _ _ (fun _ hc => LF.lockWrite_inv hc none)
+    | lockRead => exact Tree.lockVia_inv h _ _ .lockRead (by decide)
+    | lockTreeWrite => exact Tree.lockVia_inv h _ _ (.lockWrite none) (by decide)
+    | lockWrite => exact Tree.lockVia_inv h _ _ (.lockWrite none) (by decide)
     | unlock => exact Tree.unlock_inv h
-  | branch o => exact ⟨h.cf, Branch.inv_stepG h.branch (.branch o)⟩
-  | repo o => exact ⟨h.cf, Branch.inv_stepG h.branch (.repo o)⟩
+  | branch o => exact ⟨h.cf, Branch.inv_stepG h.branch (.branch o), h.ds_held, h.ds_bal⟩
+  | repo o => exact ⟨h.cf, Branch.inv_stepG h.branch (.repo o), h.ds_held, h.ds_bal⟩
 
 theorem Tree.stepG_eq (s : Tree) (o : TOp) (hg : ¬ (o = .tree .unlock ∧ s.cf.count = 0)) :
     s.stepG o = s.step o := by
@@ -411,14 +536,28 @@ def TreeOp.branchOp : TreeOp → Op
   | .lockWrite => .lockWrite none
   | .unlock => .unlock
 
+/-- the mode a tree lock operation takes the dirstate file in -/
+def TreeOp.dsMode : TreeOp → Mode
+  | .lockRead => .r
+  | _ => .w
+
 theorem Branch.stepG_repo (s : Branch) (o : Op) :
     s.stepG (.repo o) = ({ s with repo := (s.repo.step o).1 }, (s.repo.step o).2) := by
   simp only [Branch.stepG, Branch.step]
 
-theorem Tree.lockVia_ok {s s' : Tree} {bo : Op} {self : LF → LF × Res} {t : Option Nat}
-    (e : s.lockVia bo self = (s', .ok t)) :
+theorem Tree.rollbackBranch_err (s : Tree) (e : Err) : ∃ e', (Tree.rollbackBranch s e).2 = .error e' := by
+  simp only [Tree.rollbackBranch]
+  rcases s.branch.stepG (.branch .unlock) with ⟨b, r⟩
+  cases r <;> exact ⟨_, rfl⟩
+
+/-- a granted tree lock call: the branch call and the call on the own control files were
+granted, the dirstate file was already held or has just been locked -/
+theorem Tree.lockVia_ok {s s' : Tree} {bo : Op} {m : Mode} {self : LF → LF × Res} {t : Option Nat}
+    (e : s.lockVia bo m self = (s', .ok t)) :
     ∃ tb tc, (s.branch.stepG (.branch bo)).2 = .ok tb ∧ (self s.cf).2 = .ok tc ∧
-      s' = { cf := (self s.cf).1, branch := (s.branch.stepG (.branch bo)).1 } := by
+      s'.cf = (self s.cf).1 ∧ s'.branch = (s.branch.stepG (.branch bo)).1 ∧
+      ((s.ds.held.isSome = true ∧ s'.ds = s.ds) ∨
+       (s.ds.held.isSome = false ∧ s.ds.lock m = .ok s'.ds)) := by
   simp only [Tree.lockVia] at e
   rcases hb : s.branch.stepG (.branch bo) with ⟨b, rb⟩
   rw [hb] at e
@@ -429,47 +568,117 @@ theorem Tree.lockVia_ok {s s' : Tree} {bo : Op} {self : LF → LF × Res} {t : O
     rcases hc : self s.cf with ⟨cf', rc⟩
     rw [hc] at e
     cases rc with
-    | ok tc =>
-      simp only at e
-      exact ⟨tb, tc, rfl, rfl, (Prod.mk.inj e).1.symm⟩
     | error e' =>
       simp only at e
-      rcases hu : b.stepG (.branch .unlock) with ⟨b2, ru⟩
-      rw [hu] at e
-      cases ru <;> simp at e
+      obtain ⟨e2, h2⟩ := Tree.rollbackBranch_err { cf := cf', branch := b, ds := s.ds } e'
+      have := congrArg Prod.snd e
+      simp only at this
+      rw [h2] at this; cases this
+    | ok tc =>
+      simp only at e
+      by_cases hh : s.ds.held.isSome = true
+      · simp only [hh, if_true] at e
+        have e1 := (Prod.mk.inj e).1
+        subst e1
+        exact ⟨tb, tc, rfl, rfl, rfl, rfl, Or.inl ⟨hh, rfl⟩⟩
+      · have hhn : s.ds.held.isSome = false := by simpa using hh
+        simp only [hh, Bool.false_eq_true, if_false] at e
+        cases hd : s.ds.lock m with
+        | ok d =>
+          rw [hd] at e
+          simp only at e
+          have e1 := (Prod.mk.inj e).1
+          subst e1
+          exact ⟨tb, tc, rfl, rfl, rfl, rfl, Or.inr ⟨hhn, rfl⟩⟩
+        | error e' =>
+          rw [hd] at e
+          simp only at e
+          rcases hu : cf'.unlock with ⟨cf2, r2⟩
+          rw [hu] at e
+          cases r2 with
+          | ok t2 =>
+            simp only at e
+            obtain ⟨e2, h2⟩ := Tree.rollbackBranch_err { cf := cf2, branch := b, ds := s.ds } e'
+            have := congrArg Prod.snd e
+            simp only at this
+            rw [h2] at this; cases this
+          | error e3 =>
+            simp only at e
+            obtain ⟨e2, h2⟩ := Tree.rollbackBranch_err { cf := cf2, branch := b, ds := s.ds } e3
+            have := congrArg Prod.snd e
+            simp only at this
+            rw [h2] at this; cases this
+
+theorem Tree.step_lock_eq (s : Tree) (o : TreeOp) (ho : o ≠ .unlock) :
+    s.step (.tree o) = s.lockVia o.branchOp o.dsMode (fun cf => cf.step o.cfOp) := by
+  cases o with
+  | unlock => exact absurd rfl ho
+  | lockRead => rfl
+  | lockTreeWrite => rfl
+  | lockWrite => rfl
+
+theorem Tree.unlock_state (s : Tree) :
+    s.unlock.1.cf = s.cf.unlock.1 ∧ s.unlock.1.branch = (s.branch.stepG (.branch .unlock)).1 ∧
+    s.unlock.1.ds = (if s.cf.count = 1 && s.ds.held.isSome then s.ds.unlock else s.ds) := by
+  simp only [Tree.unlock]
+  by_cases hc : (s.cf.count = 1 && s.ds.held.isSome) = true
+  · simp only [hc, if_true]
+    rcases s.cf.unlock with ⟨cf, r⟩
+    rcases s.branch.stepG (.branch .unlock) with ⟨b, rb⟩
+    cases rb <;> exact ⟨rfl, rfl, rfl⟩
+  · simp only [hc, Bool.false_eq_true, if_false]
+    rcases s.cf.unlock with ⟨cf, r⟩
+    rcases s.branch.stepG (.branch .unlock) with ⟨b, rb⟩
+    cases rb <;> exact ⟨rfl, rfl, rfl⟩
+
+theorem Tree.unlock_result (s : Tree) :
+    s.unlock.2 = (match (s.branch.stepG (.branch .unlock)).2 with
+      | .error e' => .error e'
+      | .ok _ => s.cf.unlock.2) := by
+  simp only [Tree.unlock]
+  by_cases hc : (s.cf.count = 1 && s.ds.held.isSome) = true
+  · simp only [hc, if_true]
+    rcases s.cf.unlock with ⟨cf, r⟩
+    rcases s.branch.stepG (.branch .unlock) with ⟨b, rb⟩
+    cases rb <;> rfl
+  · simp only [hc, Bool.false_eq_true, if_false]
+    rcases s.cf.unlock with ⟨cf, r⟩
+    rcases s.branch.stepG (.branch .unlock) with ⟨b, rb⟩
+    cases rb <;> rfl
 
 theorem Tree.step_ok {s : Tree} (o : TreeOp) {t : Option Nat} (hr : (s.step (.tree o)).2 = .ok t) :
     ∃ tb tc, (s.branch.stepG (.branch o.branchOp)).2 = .ok tb ∧ (s.cf.step o.cfOp).2 = .ok tc ∧
-      (s.step (.tree o)).1 =
-        { cf := (s.cf.step o.cfOp).1, branch := (s.branch.stepG (.branch o.branchOp)).1 } := by
-  cases o with
-  | lockRead =>
-    exact Tree.lockVia_ok (s := s) (s' := (s.step (.tree .lockRead)).1) (t := t) (Prod.ext rfl hr)
-  | lockTreeWrite =>
-    exact Tree.lockVia_ok (s := s) (s' := (s.step (.tree .lockTreeWrite)).1) (t := t) (Prod.ext rfl hr)
-  | lockWrite =>
-    exact Tree.lockVia_ok (s := s) (s' := (s.step (.tree .lockWrite)).1) (t := t) (Prod.ext rfl hr)
-  | unlock =>
-    simp only [Tree.step, Tree.unlock, TreeOp.cfOp, TreeOp.branchOp, LF.step] at hr ⊢
-    rcases hc : s.cf.unlock with ⟨cf', rc⟩
-    rw [hc] at hr
-    simp only at hr ⊢
-    rcases hb : s.branch.stepG (.branch .unlock) with ⟨b, rb⟩
-    rw [hb] at hr
-    cases rb with
-    | error e' => simp at hr
-    | ok tb =>
-      simp only at hr ⊢
-      exact ⟨tb, t, rfl, hr, trivial⟩
+      (s.step (.tree o)).1.cf = (s.cf.step o.cfOp).1 ∧
+      (s.step (.tree o)).1.branch = (s.branch.stepG (.branch o.branchOp)).1 := by
+  by_cases ho : o = .unlock
+  · subst ho
+    obtain ⟨h1, h2, _⟩ := Tree.unlock_state s
+    have hres := Tree.unlock_result s
+    simp only [Tree.step] at hr ⊢
+    rw [hres] at hr
+    cases hb : (s.branch.stepG (.branch .unlock)).2 with
+    | error e' => rw [hb] at hr; cases hr
+    | ok tb => rw [hb] at hr; exact ⟨tb, t, hb, hr, h1, h2⟩
+  · have e := Tree.step_lock_eq s o ho
+    obtain ⟨tb, tc, h1, h2, h3, h4, _⟩ :=
+      Tree.lockVia_ok (s := s) (s' := (s.step (.tree o)).1) (t := t) (by rw [← e]; exact Prod.ext rfl hr)
+    exact ⟨tb, tc, h1, h2, h3, h4⟩
 
-/-- a refused tree lock call leaves the lock state unchanged, given that the refused
-branch call underneath does (`hbr`) and the refused call on the tree's own control
-files does (`hself`): the branch lock taken first is given back -/
-theorem Tree.lockVia_refused {s : Tree} (h : s.Inv) (bo : Op) (hbo : bo ≠ .unlock) (self : LF → LF × Res)
-    (hself : ∀ e, (self s.cf).2 = .error e → (self s.cf).1 = s.cf)
+theorem Tree.rollbackBranch_ok {s1 : Tree} {b' : Branch} (e : Err)
+    (eu : s1.branch.stepG (.branch .unlock) = (b', .ok none)) :
+    Tree.rollbackBranch s1 e = ({ s1 with branch := b' }, .error e) := by
+  simp only [Tree.rollbackBranch, eu]
+
+/-- A refused tree lock call leaves the lock state unchanged, given that the refused
+branch call underneath does (`hbr`): a refusal of the tree's own control files gives the
+branch lock back; a refusal of the dirstate file gives the control files AND the branch
+lock back. -/
+theorem Tree.lockVia_refused {s : Tree} (h : s.Inv) (bo : Op) (hbo : bo ≠ .unlock) (m : Mode)
+    (o : Op) (ho : o ≠ .unlock)
     (hbr : ∀ e, (s.branch.stepG (.branch bo)).2 = .error e →
       (s.branch.stepG (.branch bo)).1.core = s.branch.core)
-    {e : Err} (hr : (s.lockVia bo self).2 = .error e) : (s.lockVia bo self).1.lcore = s.lcore := by
+    {e : Err} (hr : (s.lockVia bo m (fun cf => cf.step o)).2 = .error e) :
+    (s.lockVia bo m (fun cf => cf.step o)).1.lcore = s.lcore := by
   simp only [Tree.lockVia] at hr ⊢
   rcases hb : s.branch.stepG (.branch bo) with ⟨b, rb⟩
   rw [hb] at hr hbr
@@ -477,27 +686,108 @@ theorem Tree.lockVia_refused {s : Tree} (h : s.Inv) (bo : Op) (hbo : bo ≠ .unl
   | error e' =>
     simp only [Tree.lcore, Branch.lcore_of_core (hbr e' rfl)]
   | ok tb =>
+    obtain ⟨b', eu, hl⟩ := Branch.lock_unlock_lcore h.branch bo hbo hb
     simp only [Tree.lockSelf] at hr ⊢
-    rcases hc : self s.cf with ⟨cf', rc⟩
-    rw [hc] at hr hself
+    rcases hc : s.cf.step o with ⟨cf', rc⟩
+    rw [hc] at hr
     cases rc with
-    | ok tc => simp at hr
     | error e1 =>
-      have hcf : cf' = s.cf := hself e1 rfl
-      obtain ⟨b', eu, hl⟩ := Branch.lock_unlock_lcore h.branch bo hbo hb
-      simp only [eu, Tree.lcore, hl, hcf]
+      have hcf : cf' = s.cf := by
+        have := LF.step_refused s.cf h.cf o e1 (by rw [hc])
+        rw [hc] at this; exact this
+      simp only [Tree.rollbackBranch_ok (s1 := { cf := cf', branch := b, ds := s.ds }) e1 eu]
+      simp only [Tree.lcore, hl, hcf]
+    | ok tc =>
+      simp only at hr ⊢
+      by_cases hh : s.ds.held.isSome = true
+      · simp [hh] at hr
+      · simp only [hh, Bool.false_eq_true, if_false] at hr ⊢
+        cases hd : s.ds.lock m with
+        | ok d => rw [hd] at hr; simp at hr
+        | error e2 =>
+          obtain ⟨cf2, eu2, hl2⟩ := LF.lock_unlock_lcore h.cf o ho hc
+          simp only [eu2]
+          simp only [Tree.rollbackBranch_ok (s1 := { cf := cf2, branch := b, ds := s.ds }) e2 eu]
+          simp only [Tree.lcore, hl, hl2]
 
 /-- the result of a tree lock call whose own control files refuse with `e1` while the
 branch call underneath is granted: `e1`, after the roll-back -/
-theorem Tree.lockVia_self_refused {s : Tree} (h : s.Inv) (bo : Op) (hbo : bo ≠ .unlock) (self : LF → LF × Res)
+theorem Tree.lockVia_self_refused {s : Tree} (h : s.Inv) (bo : Op) (hbo : bo ≠ .unlock) (m : Mode)
+    (self : LF → LF × Res)
     {b : Branch} {tb : Option Nat} (hb : s.branch.stepG (.branch bo) = (b, .ok tb))
-    {e1 : Err} (hc : (self s.cf).2 = .error e1) : (s.lockVia bo self).2 = .error e1 := by
+    {e1 : Err} (hc : (self s.cf).2 = .error e1) : (s.lockVia bo m self).2 = .error e1 := by
   simp only [Tree.lockVia, hb, Tree.lockSelf]
   rcases hcc : self s.cf with ⟨cf', rc⟩
   rw [hcc] at hc
   simp only at hc
   subst hc
   obtain ⟨b', eu, _⟩ := Branch.lock_unlock_lcore h.branch bo hbo hb
-  simp only [eu]
+  simp only [Tree.rollbackBranch_ok (s1 := { cf := cf', branch := b, ds := s.ds }) _ eu]
+
+/-- THE DIRSTATE ROLL-BACK.  First write lock of a tree (`lock_write` / `lock_tree_write`)
+whose dirstate file is pinned by another reader, branch call and own control files
+granted: the call raises `LockContention`; the control files have been locked AND
+unlocked again (their physical log grows by exactly `acquire, release`, the lock is not
+held, count 0), the branch lock has been given back, the dirstate lock is untouched. -/
+theorem Tree.lockVia_ds_refused {s : Tree} (h : s.Inv) (bo : Op) (hbo : bo ≠ .unlock)
+    (hc0 : s.cf.count = 0) (hpin : s.ds.pinned = true)
+    {b : Branch} {tb : Option Nat} (hb : s.branch.stepG (.branch bo) = (b, .ok tb))
+    {cf' : LF} {tc : Option Nat} (hc : s.cf.lockWrite none = (cf', .ok tc)) :
+    (s.lockVia bo .w (fun cf => cf.lockWrite none)).2 = .error .contention ∧
+    (s.lockVia bo .w (fun cf => cf.lockWrite none)).1.ds = s.ds ∧
+    (s.lockVia bo .w (fun cf => cf.lockWrite none)).1.cf.count = 0 ∧
+    (s.lockVia bo .w (fun cf => cf.lockWrite none)).1.cf.phys.held = none ∧
+    (∃ ev, ev ≠ Ev.rel ∧
+      (s.lockVia bo .w (fun cf => cf.lockWrite none)).1.cf.phys.log = s.cf.phys.log ++ [ev] ++ [.rel]) := by
+  have hheld : s.ds.held.isSome = false := by
+    cases hx : s.ds.held.isSome with
+    | false => rfl
+    | true => have := h.ds_held.mp hx; omega
+  have hd : s.ds.lock .w = .error .contention := by simp [DS.lock, hpin]
+  obtain ⟨b', eu, _⟩ := Branch.lock_unlock_lcore h.branch bo hbo hb
+  have hcf' : cf'.Inv := by have := LF.lockWrite_inv h.cf none; rw [hc] at this; exact this
+  have hcnt : cf'.count = 1 := by
+    rcases LF.lockWrite_unlocked h.cf hc0 none with ⟨e', ew⟩ | ⟨s', t', ew, h1⟩
+    · rw [ew] at hc; cases hc
+    · rw [ew] at hc; injection hc with e1 _; subst e1; exact h1
+  -- the edge: the first lock appends one acquire event
+  have hacq : ∃ ev, ev ≠ Ev.rel ∧ cf'.phys.log = s.cf.phys.log ++ [ev] := by
+    have hmn : s.cf.mode = none := by
+      cases hm : s.cf.mode with
+      | none => rfl
+      | some m => have := h.cf.mode_count.mp (by simp [hm]); omega
+    have htn : s.cf.txn = none := by rw [h.cf.txn_mode]; exact hmn
+    unfold LF.lockWrite at hc
+    simp only [hmn, Option.isSome_none, Bool.false_eq_true, if_false] at hc
+    split at hc
+    · cases hc
+    · next p t hp =>
+      obtain ⟨_, ev, hev, hl⟩ := Phys.lockWrite_ok hp
+      simp only [htn, Option.isSome_none, Bool.false_eq_true, if_false] at hc
+      have e1 := (Prod.mk.inj hc).1
+      rw [← e1]
+      exact ⟨ev, hev, hl⟩
+  -- the last unlock appends the release event
+  rcases LF.unlock_spec hcf' with ⟨h0, _⟩ | ⟨_, cf2, eu2, hcc, hi2⟩
+  · omega
+  · have hrel : cf2.phys.log = cf'.phys.log ++ [.rel] ∧ cf2.phys.held = none := by
+      have hm : cf'.mode.isSome = true := hcf'.mode_count.mpr (by omega)
+      have hmn : cf'.mode.isNone = false := by
+        cases hmm : cf'.mode with
+        | none => rw [hmm] at hm; cases hm
+        | some _ => rfl
+      have htn : cf'.txn.isNone = false := by
+        rw [hcf'.txn_mode]; exact hmn
+      have hgt : ¬ cf'.count > 1 := by omega
+      unfold LF.unlock at eu2
+      simp only [hmn, Bool.false_eq_true, if_false, hgt, htn] at eu2
+      have e2 := (Prod.mk.inj eu2).1
+      rw [← e2]
+      exact ⟨rfl, rfl⟩
+    obtain ⟨ev, hev, hl⟩ := hacq
+    simp only [Tree.lockVia, hb, Tree.lockSelf, hc, hheld, Bool.false_eq_true, if_false, hd, eu2]
+    simp only [Tree.rollbackBranch_ok (s1 := { cf := cf2, branch := b, ds := s.ds }) _ eu]
+    refine ⟨trivial, trivial, by omega, hrel.2, ev, hev, ?_⟩
+    rw [hrel.1, hl]
 
 end BreezyVerif.C28
